@@ -141,7 +141,8 @@ def worker_main(pid, tier, seed, unit_file, out_file):
     assert os.path.realpath(ombott.__file__).startswith(root + os.sep), \
         f'ombott imported from {ombott.__file__}, expected under {root}'
     ctx = Ctx(pid, tier, seed, job['index'])
-    t0 = time.time()
+    from vmon.vclock import real_time
+    t0 = real_time()
     try:
         mod.run_unit(ctx, job['unit'])
     except Inconclusive as e:
@@ -149,7 +150,7 @@ def worker_main(pid, tier, seed, unit_file, out_file):
     except BaseException:
         ctx.set_inconclusive('worker crashed: ' + traceback.format_exc()[-1500:])
     res = ctx.dump()
-    res['wall_s'] = time.time() - t0
+    res['wall_s'] = real_time() - t0
     with open(out_file, 'w') as f:
         json.dump(res, f)
 
